@@ -174,3 +174,21 @@ class Prop:
         """True when the case belongs to an open known-finding class and is
         excluded by construction (counted, not checked)."""
         return False
+
+
+def robust_gen(fn, tries=8):
+    """Seed-expanded generators are total functions of the seed: if a seed lands in an ill-typed corner of a
+    generator (HarnessError while typing the draft), the next seeds are used instead."""
+    import functools
+
+    @functools.wraps(fn)
+    def wrapped(seed):
+        last = None
+        for k in range(tries):
+            try:
+                return fn(seed + k * 7919)
+            except Exception as e:  # noqa: BLE001
+                last = e
+        raise last
+
+    return wrapped
